@@ -110,7 +110,7 @@ def arch_yaml(w, keep=None) -> str:
     every throughput (configuration actions of C19)."""
     es = _fr(w.get("escale", [1, 1]))
     tsc = _fr(w.get("tscale", [1, 1]))
-    E = lambda x: _num(Fraction(x) * es)
+    E = lambda x: _num((_fr(x) if isinstance(x, (list, tuple)) else Fraction(x)) * es)
     T = lambda tp: "inf" if tp[1] == 0 else _num(_fr(tp) * tsc)
     out = ["arch:", "  nodes:"]
     comps = sorted(w["level"], key=lambda c: w["level"][c])
